@@ -27,12 +27,15 @@ RULE = ("hypothesis: chains of 1..5 CORD2R/C/S cards (random ids, any type mix, 
         "body parts, as input or query system for the coordinate part); distinct by case hash.")
 ASSUME = ["numpy float64 linear algebra of the reference (refs/coordsys.py) is accurate to ~1e-14 "
           "relative; comparisons use 1e-9 x model length scale (see metrics for the margin)",
-          "formrbe3 comparisons are skipped (labelled) when the reference normal matrix or the "
-          "UM elimination block has condition number > 1e8 / 1e6"]
+          "formrbe3 comparisons use 1000 eps cond and are skipped (labelled) when cond(normal matrix) x "
+          "cond(UM elimination block) of the reference model exceeds 1e7"]
 KNOWN = {}
 
 TOL = 1e-9          # absolute error / model length scale (observed ~1e-14)
 TOL_ORTH = 1e-12    # |T^T T - I|, |det - 1| (observed ~1e-15)
+EPS = 2.220446049250313e-16
+RBE3_FACTOR = 1000.0  # formrbe3 errors are compared with RBE3_FACTOR * EPS * cond (observed <= 0.3)
+COND_MAX = 1e7        # formrbe3 cases with a larger total condition number are skipped (labelled)
 
 
 # ---------------------------------------------------------------- helpers
@@ -482,17 +485,15 @@ def oracle_rbe3(case, R):
         w[[d > 3 for _, d in idof]] *= Lc * Lc
     normal = (rb_i.T * w) @ rb_i
     cond = float(np.linalg.cond(normal))
-    R.metric("log10_cond_normal", math.log10(cond) if np.isfinite(cond) and cond > 0 else 99)
     R.label("um" if case.get("um") else "no_um",
             "weights" if any(g["wt"] is not None for g in case["groups"]) else "unit_weights",
             "rot_indep" if any(d > 3 for _, d in idof) else "trans_only")
-    if not cond <= 1e8:
+    if not cond <= COND_MAX:
         R.label("skipped:illconditioned_normal")
         return
+    R.metric("log10_cond_normal", math.log10(cond))
     Rref = cs.wls_rbe3(rb_i, w, rb_d)
-    Srb = max(1.0, float(np.abs(rb_i).max()))
-    # tolerance: relative 1e-9 with the conditioning of the normal equations stated explicitly
-    tol = TOL * max(1.0, cond / 1e3)
+    condt = cond          # total conditioning: normal equations x UM elimination block
 
     um = case.get("um")
     um_list = None
@@ -511,23 +512,27 @@ def oracle_rbe3(case, R):
         ncols = [alld.index(t) for t in ncols_dof]
         Cm = Cfull[:, mcols]
         condm = float(np.linalg.cond(Cm))
-        R.metric("log10_cond_um", math.log10(condm) if np.isfinite(condm) and condm > 0 else 99)
         dep_in_m = sum(1 for t in mdof if t in ddof)
         R.label("um:all_indep" if dep_in_m == 0 else
                 ("um:all_dep" if dep_in_m == len(mdof) else "um:mixed"))
-        if not condm <= 1e6:
+        if not cond * condm <= COND_MAX:
             R.label("skipped:singular_um_choice")
             try:
                 n2p.formrbe3(uset, dep["gid"], dep["dof"], ind_list, um_list)
             except np.linalg.LinAlgError:
                 pass          # documented: a singular m-set choice raises LinAlgError
             return
+        R.metric("log10_cond_um", math.log10(condm))
         Rref_um = -np.linalg.solve(Cm, Cfull[:, ncols])
-        tol = tol * max(1.0, condm)
+        condt = cond * condm
         rows_dof, cols_dof, want = mdof, ncols_dof, Rref_um
     else:
         rows_dof, cols_dof, want = ddof, idof, Rref
 
+    # forward error of a solve is ~ eps * condition number (observed <= 0.3 eps cond):
+    # tolerance 1000 eps cond, i.e. between 2e-13 and 2e-6 of the matrix scale
+    unit = EPS * condt
+    tol = RBE3_FACTOR * unit
     got = n2p.formrbe3(uset, dep["gid"], dep["dof"], ind_list, um_list)
     if not R.check(got.shape == want.shape, "rbe3_shape", f"{got.shape} vs {want.shape}"):
         return
@@ -538,7 +543,7 @@ def oracle_rbe3(case, R):
     rbr = np.array([fullr[g][d - 1] for g, d in rows_dof])
     Sx = max(1.0, float(np.abs(rbc).max()), float(np.abs(rbr).max()))
     e = float(np.abs(got @ rbc - rbr).max()) / Sx
-    R.metric("rigid_reproduction_err/tol", e / tol)
+    R.metric("rigid_reproduction_err/(eps*cond)", e / unit)
     R.check(e <= tol, "rbe3_rigid_body_reproduction",
             f"dep {dep} groups {case['groups']} um {um}: |R rb_ind - rb_dep|={e:.3g} tol={tol:.3g} "
             f"cond={cond:.3g}")
@@ -548,14 +553,14 @@ def oracle_rbe3(case, R):
     dofs = uset.index.get_level_values("dof").values
     pos = {(int(i), int(d)): r for r, (i, d) in enumerate(zip(ids, dofs))}
     e = float(np.abs(got @ rbu[[pos[t] for t in cols_dof]] - rbu[[pos[t] for t in rows_dof]]).max()) / Sx
-    R.metric("rigid_reproduction_err/tol", e / tol)
+    R.metric("rigid_reproduction_err/(eps*cond)", e / unit)
     R.check(e <= tol, "rbe3_rigid_body_reproduction_rbgeom_uset", f"err={e:.3g} tol={tol:.3g}")
     # independent weighted least-squares / constraint elimination model
     Sw = max(1.0, float(np.abs(want).max()))
     e = float(np.abs(got - want).max()) / Sw
-    R.metric("wls_model_err/tol", e / tol)
+    R.metric("wls_model_err/(eps*cond)", e / unit)
     R.check(e <= tol, "rbe3_vs_wls_model",
-            f"dep {dep} groups {case['groups']} um {um}: err={e:.3g} tol={tol:.3g} Srb={Srb:.3g}")
+            f"dep {dep} groups {case['groups']} um {um}: err={e:.3g} tol={tol:.3g}")
     # a common factor on all weights changes nothing
     k = case["wscale"]
     il2 = []
@@ -564,7 +569,7 @@ def oracle_rbe3(case, R):
         il2.append(grp["gids"])
     got2 = n2p.formrbe3(uset, dep["gid"], dep["dof"], il2, um_list)
     e = float(np.abs(got2 - got).max()) / Sw
-    R.metric("weight_scaling_err/tol", e / tol)
+    R.metric("weight_scaling_err/(eps*cond)", e / unit)
     R.check(e <= tol, "rbe3_common_weight_factor", f"k={k} err={e:.3g}")
 
 
@@ -808,13 +813,18 @@ def rbe3_cases(draw, um_first=False):
         for grp in groups:
             for gid in grp["gids"]:
                 pool += [(gid, int(ch)) for ch in str(grp["dof"])]
-        style = draw(st.sampled_from(["dep0", "ind0"] if um_first else ["indep", "mixed", "dep"]))
+        style = draw(st.sampled_from(["dep0", "ind0"] if um_first else
+                                     ["indep", "mixed", "mixed", "dep"]))
         if style == "dep":
             pick = pool[:nd]
         elif style == "indep":
             pick = draw(st.lists(st.sampled_from(pool[nd:]), min_size=nd, max_size=nd, unique=True))
         elif style == "mixed":
-            pick = draw(st.lists(st.sampled_from(pool), min_size=nd, max_size=nd, unique=True))
+            kdep = draw(st.integers(1, nd - 1)) if nd > 1 else 1
+            pick = draw(st.lists(st.sampled_from(pool[:nd]), min_size=kdep, max_size=kdep, unique=True))
+            if nd > kdep:
+                pick += draw(st.lists(st.sampled_from(pool[nd:]), min_size=nd - kdep,
+                                      max_size=nd - kdep, unique=True))
         elif style == "dep0":
             # the first dependent dof plus independent dof
             pick = pool[:1] + draw(st.lists(st.sampled_from(pool[nd:]), min_size=nd - 1,
@@ -863,10 +873,21 @@ def replace_cases(draw):
             "rbref": draw(point_in(cs.RECT))}
 
 
+REQUIRED_CLASSES = {"thorough": ["coords:mode:build", "coords:mode:mk", "coords:mode:uset",
+                                 "coords:deep_C", "coords:deep_S", "coords:depth5",
+                                 "rb:deep_C", "rb:deep_S", "rb:spoints", "rb:qgrids", "rb:ref:grid",
+                                 "rb:ref:xyz", "rb:ref:default", "rbe3:um:all_indep",
+                                 "rbe3:um:all_dep", "rbe3:um:mixed", "rbe3:weights", "rbe3:rot_indep",
+                                 "rbe3:deep_C", "rbe3:deep_S"]}
+
 PARTS = [
-    Part("coords", oracle_coords, strategy=coords_cases, quick=(6, 120), thorough=(16, 600)),
-    Part("rb", oracle_rb, strategy=rb_cases, quick=(5, 150), thorough=(16, 700)),
-    Part("rbe3", oracle_rbe3, strategy=rbe3_cases, quick=(4, 150), thorough=(16, 500)),
+    Part("coords", oracle_coords, strategy=coords_cases, quick=(5, 250), thorough=(16, 1000)),
+    Part("rb", oracle_rb, strategy=rb_cases, quick=(4, 300), thorough=(16, 1200)),
+    Part("rbe3", oracle_rbe3, strategy=rbe3_cases, quick=(5, 250), thorough=(16, 1000)),
+    # UM lists with the lone-index-0 signature (see um_first_index_signature): kept apart so that
+    # the suspected formrbe3 defect does not mask the other parts
     Part("rbe3_um_first", oracle_rbe3, strategy=rbe3_um_first_cases, quick=(1, 60), thorough=(4, 300)),
-    Part("replace_basic", oracle_replace, strategy=replace_cases, quick=(1, 120), thorough=(8, 300)),
+    # replace_basic_cs raises "assignment destination is read-only" under pandas 3 (suspected
+    # defect): kept apart for the same reason
+    Part("replace_basic", oracle_replace, strategy=replace_cases, quick=(1, 150), thorough=(8, 500)),
 ]
